@@ -53,7 +53,7 @@ func jsonDoc(v any) string { b, _ := json.Marshal(v); return string(b) }
 
 func runGet(start string) (bool, error, any) {
 	u, _ := url.Parse(start)
-	doc, src, err := jtp.Get(u, "application/activity+json", []string{"application/activity+json", "application/json", "application/jrd+json"}, 5)
+	doc, src, err := jtp.Get(u, "application/activity+json", []string{"application/activity+json", "application/json", "application/jrd+json"}, 8)
 	if err != nil && (doc != nil || src != nil) {
 		return true, errors.New("error returned together with a document"), nil
 	}
@@ -79,6 +79,17 @@ func scenarios() []scenario {
 		c1: resp("302 Found", []string{"Location: /chain2"}, "ignored body"),
 		c2: resp("200 OK", ct, `{"id":"https://f.example/chain2","type":"Note"}`),
 	}, Hops: []string{c0, c1, c2}, Start: c0, Run: runGet})
+	// a longer chain (six redirects): time must grow with the number of hops, not faster
+	long := map[string][]byte{}
+	var longHops []string
+	for i := 0; i < 6; i++ {
+		u := fmt.Sprintf("%s/long%d", h, i)
+		long[u] = resp("302 Found", []string{fmt.Sprintf("Location: /long%d", i+1)}, "")
+		longHops = append(longHops, u)
+	}
+	long[h+"/long6"] = resp("200 OK", ct, `{"id":"https://f.example/long6","type":"Note"}`)
+	longHops = append(longHops, h+"/long6")
+	out = append(out, scenario{Name: "chain-of-six", Routes: long, Hops: longHops, Start: longHops[0], Run: runGet})
 	// webfinger
 	wf := "https://wf.example/.well-known/webfinger?resource=acct%3Aalice%40wf.example"
 	out = append(out, scenario{Name: "webfinger", Routes: map[string][]byte{
@@ -250,10 +261,10 @@ func runCase(r *ev.Report, sc scenario, f fault) {
 			return
 		}
 	}
-	hops := len(conns)
-	if hops == 0 {
-		hops = 1
-	}
+	// "within a small multiple of the timeout per redirect hop": hops are counted on the
+	// scenario (the faulty hop and the ones before it), not on the connections the code chose
+	// to open, so that retries multiply the time but not the allowance
+	hops := f.Hop + 1
 	if bound := time.Duration(hops) * 5 * timeout; virtual > bound {
 		r.Violation(key("slow"), map[string]any{"case": c, "msg": fmt.Sprintf("the fetch took %s of (virtual) time for %d connection(s) with a timeout of %s", virtual, len(conns), timeout)})
 		return
@@ -301,7 +312,7 @@ func runCase(r *ev.Report, sc scenario, f fault) {
 func main() {
 	envaDir := enva.Reexec()
 	r := ev.New("C05", "fault_enumeration",
-		"corpus of 9 exchanges (6 single responses incl. nested, trailing-garbage, 4 kB and LF-only; a 3-hop redirect chain; a webfinger lookup; pub.New on an actor with an outbox); "+
+		"corpus of 10 exchanges (6 single responses incl. nested, trailing-garbage, 4 kB and LF-only; a 3-hop and a 7-hop redirect chain; a webfinger lookup; pub.New on an actor with an outbox); "+
 			"faults: cut after every byte k of every response with FIN, with RST and as a stall, trickle (one byte per 0.6 x timeout) from 3 start points, connection refused and connection stall, at every hop; "+
 			"virtual-time connections: a stalled read times out iff a deadline is armed; Env-A: one real-time case per stall stage (before/in status line, headers, after headers, body, trickle, truncated body, no TLS handshake) over real TLS with a 1 s timeout; distinct_nontrivial = fault points inside a response (not before byte 0 or after the last byte)")
 	if *ev.FlagReplay != "" {
